@@ -306,8 +306,11 @@ pub fn conclude(root: &str, meta: &Meta, tier: Tier, seed: u64, wall: f64, rep: 
         "violations": rep.violation_count,
         "machinery_errors": rep.machinery_errors,
     });
-    let _ = std::fs::create_dir_all(format!("{root}/evidence"));
-    std::fs::write(format!("{root}/evidence/{}.json", meta.id), serde_json::to_string_pretty(&ev).unwrap()).expect("write evidence");
+    // a side pass (the dev-profile repetition of the thorough tier) writes its evidence elsewhere; the driver merges it
+    let evdir = std::env::var("VERIF_EVIDENCE_DIR").unwrap_or_else(|_| format!("{root}/evidence"));
+    let label = std::env::var("VERIF_PASS_LABEL").ok();
+    let _ = std::fs::create_dir_all(&evdir);
+    std::fs::write(format!("{evdir}/{}.json", meta.id), serde_json::to_string_pretty(&ev).unwrap()).expect("write evidence");
 
     let mut out = std::io::stdout();
     for l in &known_hits {
@@ -333,10 +336,15 @@ pub fn conclude(root: &str, meta: &Meta, tier: Tier, seed: u64, wall: f64, rep: 
     let _ = std::fs::create_dir_all(&dir);
     for v in unknown.iter().take(10) {
         let path = format!("{dir}/{:016x}.json", hash64(&v.key));
-        let body = json!({"property": meta.id, "key": v.key, "what": v.what, "case": v.case,
+        let mut body = json!({"property": meta.id, "key": v.key, "what": v.what, "case": v.case,
             "replay": format!("./check {} --replay {}", meta.id, path)});
+        let mut what = v.what.clone();
+        if let Some(l) = &label {
+            body["harness_profile"] = json!("dev");
+            what = format!("[{l}] {what}");
+        }
         let _ = std::fs::write(&path, serde_json::to_string_pretty(&body).unwrap());
-        let _ = writeln!(out, "VIOLATION property={} replay={} :: {}", meta.id, path, v.what);
+        let _ = writeln!(out, "VIOLATION property={} replay={} :: {}", meta.id, path, what);
     }
     1
 }
